@@ -69,6 +69,8 @@ func parseModes(s string) Modes {
 			m.Probes = true
 		case "nonnil":
 			m.NonNilParams = true
+		case "readonly":
+			m.ReadOnly = true
 		}
 	}
 	return m
